@@ -107,6 +107,12 @@ def run(ctx):
     isdict = ("call", ("free", "isinstance"), (OBJ, ("free", "dict")), ())
     dp = [p for p in pe if isdict in p.guards() and p.returns]
     skip = [c for p in dp for c in p.guards() if c[0] in ("not", "call") and any(x[0] == "attr" and x[2] == "startswith" for x in N.walk(c))]
+    # ... or filters them out in the comprehension it iterates over
+    for p in dp:
+        for e in p.of("LOOP"):
+            for x in N.walk(e["iter"]):
+                if x[0] == "comp":
+                    skip += [z for gen in x[3] for c in gen[1] for z in N.walk(c) if z[0] == "not" and any(y[0] == "attr" and y[2] == "startswith" for y in N.walk(z))]
     ctx.ob("C02.R1", fe, bool(dp) and bool(skip) and "dict" in M.cls("Container").bases, "FlagsEnum._encode accepts the dict its _decode returns and skips underscore keys", key="FlagsEnum dict branch")
     fd, pd = own_method_paths(ctx, "FlagsEnum", "_decode")
     ok = all(p.retval[0] == "new" and p.retval[1] == "Container" for p in pd if p.returns)
